@@ -1335,6 +1335,16 @@ def load_corpus(prop: str) -> list[tuple[list[list], dict, str]]:
     return out
 
 
+def signature(rule: str, what: str) -> tuple[str, str]:
+    """Kind of failure: the rule and its description without connection numbers and FSM state."""
+    import re
+
+    w = re.sub(r'connection\(?s?\)? \[?\d+(, \d+)*\]?', 'connection', what)
+    w = re.sub(r'\b(IDLE|ACTIVE|CONNECT|OPENSENT|OPENCONFIRM|ESTABLISHED)\b', 'STATE', w)
+    w = re.sub(r'5/\d', '5/x', w)
+    return rule, w
+
+
 def canon_failure(rule: str, script: list[list], cfg: dict) -> dict:
     keep = {k: v for k, v in sorted(cfg.items()) if DEFAULT_CFG.get(k) != v and k != 'routes'}
     return {'rule': rule, 'script': script, 'cfg': keep}
@@ -1420,7 +1430,7 @@ def run_property(ctx: Any, prop: str, fault_weight: float) -> None:
             model_out[i] = b
 
     seen: set = set()
-    seen_raw: set = set()
+    pending: dict = {}
     oracle = oracle_c05 if prop == 'C05' else oracle_c10
     for i in sorted(results):
         script, cfg, origin, model_b = cases[i]
@@ -1454,28 +1464,33 @@ def run_property(ctx: Any, prop: str, fault_weight: float) -> None:
                     ctx.disagreements.append(Disagreement('session', {'script': script[: k + 1], 'cfg': cfg, 'origin': origin}, b, a))
         for rule, what in (oracle(script, res, rfc_table) if prop == 'C05' else oracle(script, res, cfg, error_class)):
             ctx.count('oracle-fail:' + rule)
+            pending.setdefault(signature(rule, what), []).append((script, cfg, what))
 
-            def judge(cand: list[list], ccfg: dict) -> list[tuple[str, str]]:
-                r = run_case(cand, ccfg)
-                if 'error' in r:
-                    return []
-                return oracle(cand, r, rfc_table) if prop == 'C05' else oracle(cand, r, ccfg, error_class)
+    def judge(cand: list[list], ccfg: dict) -> list[tuple[str, str]]:
+        r = run_case(cand, ccfg)
+        if 'error' in r:
+            return []
+        return oracle(cand, r, rfc_table) if prop == 'C05' else oracle(cand, r, ccfg, error_class)
 
-            def still(cand: list[list], ccfg: dict, rule: str = rule) -> bool:
-                return any(x[0] == rule for x in judge(cand, ccfg))
-
-            raw = json.dumps([rule, script, sorted(cfg.items())])
-            if raw in seen_raw:
-                continue
-            seen_raw.add(raw)
-            small, scfg = shrink_script(script, cfg, still) if len(seen) < 200 else (script, cfg)
-            canon = canon_failure(rule, small, scfg)
-            key = json.dumps(canon, sort_keys=True)
-            if key in seen:
-                continue
-            seen.add(key)
+    # one canonical (shrunk) case per kind of failure: the two shortest scripts of each kind are
+    # shrunk, the smaller result is reported
+    for sig in sorted(pending):
+        rule = sig[0]
+        best = None
+        for script, cfg, what in sorted(pending[sig], key=lambda x: (len(x[0]), json.dumps(x[0])))[:2]:
+            small, scfg = shrink_script(script, cfg, lambda c, k, rule=rule: any(x[0] == rule for x in judge(c, k)))
             desc = next((x[1] for x in judge(small, scfg) if x[0] == rule), what)
-            ctx.failures.append(Failure('session-script', canon, {'script': small, 'cfg': scfg}, desc))
+            rank = (len(scfg), len(small), sum(1 for e in small if e[0] == 'incoming'), json.dumps(small))
+            if best is None or rank < best[0]:
+                best = (rank, small, scfg, desc)
+        assert best is not None
+        _, small, scfg, desc = best
+        canon = canon_failure(rule, small, scfg)
+        key = json.dumps(canon, sort_keys=True)
+        if key in seen:
+            continue
+        seen.add(key)
+        ctx.failures.append(Failure('session-script', canon, {'script': small, 'cfg': scfg}, desc))
     if spec is not None:
         spec.close()
 
